@@ -114,7 +114,12 @@ def ops(rng, names_for, span):
     j = rng.randrange(i, len(span))
     val = round(rng.uniform(-5, 5), 3)
     seq = [round(rng.uniform(0, 9), 2) for _ in span]
-    kind = rng.choice(['attr-seq', 'attr-scalar', 'attr-pos', 'item-seq', 'item-pos', 'label', 'slice', 'replace', 'read', 'solve', 'values'])
+    kind = rng.choice(['attr-seq', 'attr-scalar', 'attr-pos', 'item-seq', 'item-pos', 'label', 'slice', 'replace', 'read', 'solve', 'values', 'introspect', 'copy-roundtrip'])
+    if kind == 'introspect':
+        # name listing for completion / dir(): results legitimately differ (aliases are listed), the state must not
+        return (kind,), lambda m, nm: (m._ipython_key_completions_(), dir(m), nm(v) in m, len(m._ipython_key_completions_()) >= 0)[3]
+    if kind == 'copy-roundtrip':
+        return (kind, v, i), lambda m, nm: float(m.copy()[nm(v)][i])
     if kind == 'attr-seq':
         return (kind, v), lambda m, nm: setattr(m, nm(v), list(seq))
     if kind == 'attr-scalar':
